@@ -1,5 +1,6 @@
 import PncProofs.UamivLemmas
 import PncModel.Camx.Slab
+import PncProofs.LanduseThms
 
 /-!
 # C09 — binary files conform to the published layout: property theorems (uamiv family)
@@ -152,5 +153,22 @@ theorem boundary_counts (f : Boundary.BFile) (nspec : Nat) (hh : f.headers.lengt
       rw [Nat.succ_mul]
       omega
   rw [key (1 + 4 * nspec) f.steps (fun s hs => by have := h s hs; omega)]
+
+/-- **C09 (landuse: tiling).** The file the landuse writer emits is a gap-free sequence of records whose markers
+agree: the key and data records of the fractions and of every optional field, in file order. -/
+theorem landuse_tiles (f : Landuse.LFile) :
+    parseRecords (Landuse.write f).length (Landuse.write f) = some (Landuse.records f) := Landuse.write_tiles f
+
+/-- **C09 (landuse: counts).** two records per field in a new-style file, one in an old-style file; the size is the
+fractions' field plus one fixed-size field per optional record (which is how the reader counts them) -/
+theorem landuse_counts (cells : Nat) (f : Landuse.LFile) (h : Landuse.WF cells f) :
+    (Landuse.records f).length = (if f.newstyle then 2 else 1) * (1 + (Landuse.optRecs f).length) ∧
+    (Landuse.write f).length = Landuse.fieldSize f.newstyle (f.nland * cells) +
+      (Landuse.optRecs f).length * Landuse.fieldSize f.newstyle cells :=
+  ⟨Landuse.records_count f, Landuse.write_length cells f h⟩
+
+/-- **C09 (landuse: the reader on reference files).** the reader presents exactly the encoded content -/
+theorem landuse_read (cells : Nat) (f : Landuse.LFile) (h : Landuse.WF cells f) :
+    Landuse.read cells (Landuse.write f) = some f := Landuse.read_write cells f h
 
 end Props.C09
